@@ -61,6 +61,11 @@ def new_labels(draw, labs):
             # insert absent labels below / between as well
             new = new + [gen.absent_label(labs, kind, w) for w in draw(st.lists(st.sampled_from(["below", "between", "above"]), max_size=2))]
             new = list(draw(st.permutations(list(dict.fromkeys(new)))))
+    if draw(st.integers(0, 4)) == 0:
+        falsy = {"i": 0, "f": 0.0, "s": ""}[kind]        # 0 / 0.0 / '' asked for although the axis does not have it (alone or next to other absent labels)
+        if falsy not in labs and falsy not in new:
+            new = list(new)
+            new.insert(draw(st.integers(0, len(new))), falsy)
     if kind == "f" and draw(st.integers(0, 4)) == 0:
         new = [int(x) if float(x) == int(x) else x for x in new]   # int-for-float
     if kind == "i" and draw(st.integers(0, 3)) == 0:
